@@ -38,3 +38,12 @@ def done():
     """Last statement of every normally completing harness path (vacuity witness)."""
     if TWIN:
         raise Reach("REACH")
+
+
+def concrete(x, lo, hi):
+    """Return x as a plain Python int, forking on its value (finite domain lo..hi).  Used before a value crosses
+    into C code (Decimal, round, ...) where CrossHair's symbolic proxies are not modelled."""
+    for c in range(lo, hi + 1):
+        if x == c:
+            return c
+    assume(False)
